@@ -30,6 +30,7 @@ RULE = ("exhaustive: every typed application request class x every subset (<= 2^
         "Non-trivial: anything but the fully valid, matching request, or >= 2 applications competing; "
         "distinct by case.")
 ASSUME = ["required-AVP validation is on (default configuration)",
+          "realms are used in exactly the spelling they were configured with (also mixed case)",
           "when two error conditions hold at once either result code is accepted (the statement fixes no priority)",
           "unknown peers cannot reach a ready connection (3010 at the handshake) and are therefore not senders",
           "a request class without a Destination-Realm definition cannot match an application (3007 accepted)",
@@ -41,6 +42,7 @@ LAYOUTS = [
     {"name": "same-id-two-peers", "apps": [(4, "auth", [0], None), (4, "auth", [1], None)]},
     {"name": "three-apps", "apps": [(4, "auth", [0], None), (3, "acct", [0, 1], None),
                                     (16777251, "auth", [1], ["extra.example"])]},
+    {"name": "mixed-case-realm", "apps": [(4, "auth", [0], ["Roaming.Example"]), (3, "acct", [1], None)]},
 ]
 PEER_REALMS = ["example", "example"]
 
@@ -294,6 +296,15 @@ def shard_main(shard, nshards, tier, scale):
             record(rec, case, res)
         hyp.run_given(full_spec_strategy(k), body, 1, derive_seed(PID, "ex", k.__name__, sub), rec=rec)
 
+    for k in classes[shard::nshards]:
+        def mbody(spec, k=k):
+            case = {"cls": k.__name__, "spec": spec, "removed": [], "realm": "Roaming.Example", "app_id": 4,
+                    "sender_host": "peer1.example", "layout": 3}
+            res = evaluate(case)
+            res.classes.append("realm-spelling")
+            record(rec, case, res)
+        hyp.run_given(full_spec_strategy(k), mbody, 1, derive_seed(PID, "mc", k.__name__), rec=rec)
+
     n = int((6000 if thorough else 400) * scale)
 
     @st.composite
@@ -304,7 +315,7 @@ def shard_main(shard, nshards, tier, scale):
         layout = draw(st.integers(0, len(LAYOUTS) - 1))
         ids = sorted({a[0] for a in LAYOUTS[layout]["apps"]})
         return {"cls": k.__name__, "spec": draw(full_spec_strategy(k)), "removed": removed,
-                "realm": draw(st.sampled_from(["example", "example", "extra.example", "elsewhere.example"])),
+                "realm": draw(st.sampled_from(["example", "example", "extra.example", "elsewhere.example", "Roaming.Example"])),
                 "app_id": draw(st.sampled_from(ids + [999])),
                 "sender_host": draw(st.sampled_from(["peer1.example", "peer2.example"])),
                 "layout": layout, "handler": draw(st.sampled_from(["answer", "answer", "raise"])),
@@ -325,7 +336,7 @@ def run(tier, scale=1.0):
     rec = Recorder(PID)
     for d in hyp.pool_run(shard_main, (tier, scale)):
         rec.merge(d)
-    required = {"expect:deliver": 1, "expect:5005": 1, "expect:3003": 1, "expect:3007": 1, "handler:raise": 1,
+    required = {"layout:mixed-case-realm": 1, "expect:deliver": 1, "expect:5005": 1, "expect:3003": 1, "expect:3007": 1, "handler:raise": 1,
                 "layout:same-id-two-peers": 1, "layout:three-apps": 1, "app:threading": 1, "removed:2": 1}
     return finish(rec, tier=tier, level="exploration", rule=RULE, assumptions=ASSUME, t0=t0,
                   required_classes=required,
